@@ -33,6 +33,11 @@ def gcv_block(rep: Report, s: Smoother):
     def arr(name):
         return sc.arrays_assigned.get(name, [])
 
+    # ---- 0. the series the lambda is optimal for is the caller's: the kernel does not rewrite it
+    from ..rules import input_writes
+    iw = input_writes(s.k)
+    ob("R-READONLY", "the series is not modified in place (a second call on the same array would select lambda for a different series)", not iw,
+       f"`{norm_stmt(iw[0])}` stores into the input" if iw else "", iw[0] if iw else None)
     # ---- 1. candidates
     lr = arr("lambda_range")
     keys = sorted(a[0].key() for a in lr)
